@@ -182,6 +182,7 @@ package mhprimary
 //@ func (gc *primaryGC) reapRecords(fileNum uint32, lowUsePercent int64) (dead bool, err error)  property C04 C07 C11 C13
 //@   requires gc.primary != nil && gc.freeList != nil && inv(gc.primary)
 //@   modifies fp(MHGC), heap("/store/index.")
+//@   ensures @primary-invariant inv(gc.primary) && gc.primary == old(gc.primary) && gc.freeList == old(gc.freeList)
 //@   ghost var gB (Array Int Bool) = nopos()[0 := true]
 //@   ghost var gS (Array Int Int) = nosize()
 //@   ghost var gpos int = 0
@@ -216,7 +217,7 @@ package mhprimary
 
 //@ func processFreeList(ctx context.Context, freeList *freelist.FreeList, basePath string, maxFileSize uint32) (affected map[uint32]struct{}, err error)
 //@   trusted T5 contract pending: marks the records named by the rotated freelist file as deleted (see DESIGN.md 10)
-//@   modifies fp(MHGC), ctx.$done
+//@   modifies heap("freelist.FreeList"), heap("os.File"), ctx.$done
 //@   fresh affected
 
 // primaryGC.gc: only non-current files are reaped (the bound is the flushed file number, read
@@ -224,7 +225,7 @@ package mhprimary
 // the header on disk was advanced past it (D5); a dead file that is the first file when it is
 // visited is unlinked in that visit (C11).
 //@ func (gc *primaryGC) gc(ctx context.Context, lowUsePercent int64, timeLimit time.Duration) (reclaimed int64, err error)  property C03 C04 C11
-//@   requires gc.primary != nil && gc.visited != nil
+//@   requires gc.primary != nil && gc.visited != nil && gc.freeList != nil && inv(gc.primary)
 //@   modifies fp(MHGC), mapof(gc.visited), ctx.$done
 //@   ghost var ghdr int = 0
 //@   ghost var gdead bool = false
@@ -245,7 +246,7 @@ package mhprimary
 //@   assert at before call (context.Context).Err#0: @C11-oldest-dead-file-unlinked gdead && gwasfirst ==> grem
 //@   unreachable return#7: dead code - err is nil at this point (it was checked after reapRecords / writeHeader / os.Remove), so the DeadlineExceeded comparison never succeeds and a timed-out cycle returns through the generic ctx.Err() path
 //@   loop 0 invariant gc.visited != nil
-//@   loop 1 invariant ghdr == header.FirstFile && gc.primary == old(gc.primary) && gc.primary.basePath == old(gc.primary.basePath) && gc.primary.headerPath == old(gc.primary.headerPath) && gc.visited != nil && lastFileNum == gc.primary.fileNum
+//@   loop 1 invariant ghdr == header.FirstFile && gc.primary == old(gc.primary) && gc.primary.basePath == old(gc.primary.basePath) && gc.primary.headerPath == old(gc.primary.headerPath) && gc.visited != nil && lastFileNum == gc.primary.fileNum && gc.freeList != nil && inv(gc.primary)
 
 // The collector goroutine (C17): when told to stop it cancels the running cycle and waits for
 // it to finish before it returns (and thereby before it closes gc.done, which Close waits for).
